@@ -6,7 +6,7 @@ import Tsg.Base.Vars
 
 namespace Driver
 
-def sortAttrs (a : Attrs) : Attrs := a.mergeSort (fun x y => decide (x.1 ≤ y.1))
+def sortAttrs (a : Attrs) : Attrs := a.sorted
 
 def attrsSexp (a : Attrs) : Sexp :=
   .list ((sortAttrs a).map fun (k, v) => .list [.str k, v.toSexp])
